@@ -1756,7 +1756,7 @@ impl Url {
     /// # }
     /// # run().unwrap();
     /// ```
-    pub fn set_path(&mut self, mut path: &str) {
+    pub fn set_path(&mut self, path: &str) {
         let after_path = self.take_after_path();
         let old_after_path_pos = to_u32(self.serialization.len()).unwrap();
         let cannot_be_a_base = self.cannot_be_a_base();
@@ -1764,11 +1764,14 @@ impl Url {
         self.serialization.truncate(self.path_start as usize);
         self.mutate(|parser| {
             if cannot_be_a_base {
-                if path.starts_with('/') {
+                // Test for the leading slash after the tab and newline removal
+                // that the parser applies to the rest of the input.
+                let mut input = parser::Input::new_no_trim(path);
+                if let Some(remaining) = input.split_prefix('/') {
                     parser.serialization.push_str("%2F");
-                    path = &path[1..];
+                    input = remaining;
                 }
-                parser.parse_cannot_be_a_base_path(parser::Input::new_no_trim(path));
+                parser.parse_cannot_be_a_base_path(input);
             } else {
                 let mut has_host = true; // FIXME
                 parser.parse_path_start(
